@@ -66,6 +66,7 @@ pub fn gen_oligo_case(rng: &mut Rng, tier: &str, prop: &str) -> Case {
             "header" => rng.chance(1, 2),
             "delim" => *rng.pick(&[",", "\t", " "]),
             "stdin" => stdin,
+            "order" => if rng.chance(1, 2) { 0 } else { rng.range(1, 1 << 40) },
         },
         extra: vec![],
     }
